@@ -37,6 +37,7 @@ type JobSpec struct {
 	Hang     bool               `json:"hang_is_violation"`
 	Sample   int                `json:"sample"` // >0: take a seed-chosen subset of the expanded parameter combinations (quick tier only)
 	MaxPaths int                `json:"max_paths"`
+	Stubs    map[string]string  `json:"stubs"` // per-job function replacements (target -> harness function)
 }
 
 type Spec struct {
@@ -239,6 +240,7 @@ type nativeCase struct {
 	Params  map[string]int64 `json:"params"`
 	Inputs  []InputVal       `json:"inputs"`
 	pkg     string
+	stubs   map[string]string
 }
 
 type nativeResult struct {
@@ -397,7 +399,7 @@ func Check(specPath string, opt Options) int {
 			combos = combos[:js.Sample]
 		}
 		for _, pm := range combos {
-			j := &Job{ID: len(jobs), Harness: js.Harness, Pkg: js.Pkg, Params: pm, HangIsViolation: js.Hang}
+			j := &Job{ID: len(jobs), Harness: js.Harness, Pkg: js.Pkg, Params: pm, HangIsViolation: js.Hang, Stubs: js.Stubs}
 			if opt.OnlyJob != "" && !strings.Contains(j.Key(), opt.OnlyJob) {
 				continue
 			}
@@ -457,7 +459,7 @@ func Check(specPath string, opt Options) int {
 	for _, j := range jobs {
 		for k, s := range j.Samples {
 			ins, _ := s["inputs"].([]InputVal)
-			natCases = append(natCases, nativeCase{ID: fmt.Sprintf("val-%d-%d", j.ID, k), Harness: j.Harness, Params: j.Params, Inputs: ins, pkg: j.Pkg})
+			natCases = append(natCases, nativeCase{ID: fmt.Sprintf("val-%d-%d", j.ID, k), Harness: j.Harness, Params: j.Params, Inputs: ins, pkg: j.Pkg, stubs: j.Stubs})
 			if len(samples) < 12 {
 				samples = append(samples, map[string]interface{}{"job": j.Key(), "outcome": s["outcome"], "inputs": renderInputs(ins)})
 			}
@@ -550,7 +552,7 @@ func Check(specPath string, opt Options) int {
 			if ins == nil {
 				ins = []InputVal{}
 			}
-			cj := &Job{Harness: c.Harness, Pkg: c.pkg, Params: c.Params, Concrete: ins}
+			cj := &Job{Harness: c.Harness, Pkg: c.pkg, Params: c.Params, Concrete: ins, Stubs: c.stubs}
 			cjobs[c.ID] = cj
 			crun.AddJob(cj)
 		}
